@@ -26,6 +26,8 @@ func getID(match [][]byte) int {
 func (d *Driver) read() {
 	simhook.Enter("nc.reader")
 
+	defer close(d.readDone)
+
 	var b []byte
 
 	patterns := getNetconfPatterns()
@@ -43,7 +45,12 @@ func (d *Driver) read() {
 		if err != nil {
 			simhook.Yield("nc.read.errsend")
 
-			d.errs <- err
+			select {
+			case d.errs <- err:
+			case <-d.done:
+				// nobody is waiting on an rpc to hand the error to and we are being closed
+				return
+			}
 		}
 
 		b = append(b, rb...)
